@@ -8,7 +8,6 @@ import (
 	"strconv"
 	"strings"
 
-	"github.com/np-guard/netpol-analyzer/pkg/logger"
 	"github.com/np-guard/netpol-analyzer/pkg/manifests/fsscanner"
 	"github.com/np-guard/netpol-analyzer/pkg/manifests/parser"
 	"github.com/np-guard/netpol-analyzer/pkg/netpol/eval"
@@ -70,7 +69,7 @@ func endpoints(w *world.World, c *world.Conc, r *rand.Rand) []endpoint {
 	}
 	nclass := w.NAddr
 	if w.HasOut {
-		nclass++
+		nclass += 2
 	}
 	for a := 0; a < nclass; a++ {
 		if ip, ok := c.RepAddr(w, a, r.Intn(6)); ok {
@@ -100,7 +99,7 @@ func EvalAPI(dir string, w *world.World, c *world.Conc, seed int64, maxPairs int
 		}
 	}()
 	rList, _ := fsscanner.GetResourceInfosFromDirPath([]string{dir}, true, false)
-	objects, _ := parser.ResourceInfoListToK8sObjectsList(rList, logger.NewDefaultLoggerWithVerbosity(logger.LowVerbosity), true)
+	objects, _ := parser.ResourceInfoListToK8sObjectsList(rList, Quiet{}, true)
 	pe, err := eval.NewPolicyEngineWithObjects(objects)
 	if err != nil {
 		obs.Outcome = "error"
